@@ -186,7 +186,15 @@ def run(P, tier="quick"):
     for n in f.walk():
         if n.k == "SwitchStmt":
             cond = [x for x in n.kids[:-1] if x is not None][-1].strip()
-            if cond.k == "DeclRefExpr" and cond.refname == "matrix_format":
+            # the switch on the [Matrix Format] letter: a local switched on with case labels 'F', 'U' and 'L'
+            labels_ = set()
+            for st_ in n.kids[-1].kids:
+                t_ = st_
+                while t_ is not None and t_.k in ("CaseStmt", "DefaultStmt"):
+                    if t_.k == "CaseStmt" and t_.get("val") is not None:
+                        labels_.add(t_.get("val"))
+                    t_ = t_.kids[-1]
+            if cond.k == "DeclRefExpr" and {ord("F"), ord("U"), ord("L")} <= labels_:
                 msw = n
     if msw is None:
         raise AnalysisBroken("R34a: switch (matrix_format) not found")
